@@ -333,6 +333,11 @@ func (p *player) Bet(chips int64) error {
 		return ErrInvalidAction
 	}
 
+	// A negative bet would pull chips back out of the wager
+	if chips < 0 {
+		return ErrInvalidAction
+	}
+
 	//fmt.Printf("[Player %d] bet %d\n", p.idx, chips)
 
 	p.state.DidAction = "bet"
